@@ -95,6 +95,12 @@ TABLE.update({
     "c20_declared_constant_not_marked.diff": ("contracts.c16b", "lower_decl_stmt", "fresh producer"),
     "c16_int_signal_decl_wrong_value.diff": ("contracts.c16b", "lower_decl_stmt", "fresh producer"),
     "../seeded/C02-2/patch.diff": ("contracts.c16b", "lower_decl_stmt", "fresh producer"),
+    "c02_bundle_const_shares_map.diff": ("contracts.c02", "IRBuilder.bundle_const", None),
+    "c02_bundle_gate_outputs_each.diff": ("contracts.c02", "IRBuilder.bundle_gating_decider", None),
+    "c02_bundle_filter_no_separation.diff": ("contracts.c02", "IRBuilder.bundle_decider", None),
+    "c05_latch_write_set_reset_swapped.diff": ("contracts.c02", "IRBuilder.latch_write", None),
+    "c09_place_entity_xy_swapped.diff": ("contracts.c02", "IRBuilder.place_entity", None),
+    "c03_memory_write_enable_as_data.diff": ("contracts.c02", "IRBuilder.memory_write", None),
     "c08_preserved_shares_network_zero.diff": ("contracts.c12", "_restore_preserved_connection", None),
     "c08_preserved_routing_failure_ignored.diff": ("contracts.c12", "_restore_preserved_connection", None),
     "c08_preserved_span_doubled.diff": ("contracts.c12", "_restore_preserved_connection", None),
